@@ -45,6 +45,11 @@ func (e *ext) setMessage(m Message)       {} // noop
 func (e *ext) setOneOf(o OneOf)           {} // noop
 func (e *ext) setExtendee(m Message)      { e.extendee = m }
 
+func (e *ext) addType(t FieldType) {
+	t.setField(e)
+	e.typ = t
+}
+
 func (e *ext) accept(v Visitor) (err error) {
 	if v == nil {
 		return
